@@ -107,6 +107,10 @@ func main() {
 	if *tier == "thorough" {
 		qt = 300 * time.Second
 	}
+	solverName := os.Getenv("VERIF_SOLVER")
+	if solverName == "" {
+		solverName = "z3-new"
+	}
 	findings := loadFindings()
 	outDir := filepath.Join(run.VerifDir(), "out", prop)
 	os.RemoveAll(outDir)
@@ -115,7 +119,7 @@ func main() {
 	var results []*run.HarnessResult
 	// harnesses run one after another, each using all workers (paths are the unit of parallelism)
 	for _, c := range checks {
-		hr, err := run.Explore(l, c, run.Options{Workers: nw, SolverName: "z3", QueryTimeout: qt, Verbose: *verbose, MaxPaths: *maxPaths})
+		hr, err := run.Explore(l, c, run.Options{Workers: nw, SolverName: solverName, QueryTimeout: qt, Verbose: *verbose, MaxPaths: *maxPaths})
 		if err != nil {
 			fmt.Fprintln(os.Stderr, "ERROR:", err)
 			os.Exit(2)
@@ -303,7 +307,7 @@ func writeEvidence(prop, tier string, seed int, l *run.Loaded, results []*run.Ha
 		"goroutines are sequentialised: `go f()` is recorded and only run where a harness says so; channels are FIFO queues; mutexes are no-ops (no data-race or deadlock detection)",
 		"Go map iteration order is insertion order (not permuted) unless a harness permutes explicitly",
 		"integers are 64/32/16/8-bit bit-vectors with Go wrap-around semantics; no floats",
-		"the SSA builder (x/tools v0.29.0), the solver (z3 4.8.12) and the engine's instruction semantics are trusted; translator validation and concrete replay are the mitigations",
+		"the SSA builder (x/tools v0.29.0), the solver (z3 5.1.0 as z3-new; VERIF_SOLVER selects z3 4.8.12 or cvc5) and the engine's instruction semantics are trusted; translator validation and concrete replay are the mitigations",
 	}
 	for _, s := range sl {
 		assumptions = append(assumptions, "stub: "+s)
@@ -330,7 +334,7 @@ func writeEvidence(prop, tier string, seed int, l *run.Loaded, results []*run.Ha
 			"inconclusive":     inconcl,
 			"exhaustive":       false,
 			"checker_cmd":      "bin/vcheck --tier " + tier + " " + prop,
-			"trusted_base":     []string{"golang.org/x/tools/go/ssa v0.29.0", "z3 4.8.12", "/verif/engine (forked go/ssa/interp + SMT layer)", "/verif/harness models listed under assumptions"},
+			"trusted_base":     []string{"golang.org/x/tools/go/ssa v0.29.0", "z3 5.1.0 (z3-new)", "/verif/engine (forked go/ssa/interp + SMT layer)", "/verif/harness models listed under assumptions"},
 		},
 		"assumptions": assumptions,
 		"wall_s":      round(wall.Seconds()),
